@@ -668,6 +668,15 @@ static void tunnel_inspect(htp_connp_t *c, hx_obs *o, void *ctx) {
     }
     if (TT.expect_http) {
         if (ntx != 3) hx_verdict_add("C16", "resume_tx_count", "%s: CONNECT + 2 following requests were sent, %zu transactions reported", TT.desc, ntx);
+        /* the same exchange read as C04's statement: 3 requests and 3 responses, transaction i carries request i and response i */
+        if (ntx != 3) hx_verdict_add("C04", "connect_tx_count", "%s: 3 requests (CONNECT, /t1, /t2) and 3 responses were sent, %zu transactions reported", TT.desc, ntx);
+        for (size_t i = 0; i < ntx && i < 3; i++) {
+            htp_tx_t *tx = htp_list_get(c->conn->transactions, i); if (!tx) continue;
+            char want[8]; snprintf(want, sizeof want, "/t%zu", i);
+            int req_ok = i == 0 ? (tx->request_method_number == HTP_M_CONNECT) : (tx->request_uri && bstr_cmp_c(tx->request_uri, want) == 0);
+            int res_ok = tx->response_status_number == (i == 0 ? TT.status : 210 + (int) i);
+            if (!req_ok || !res_ok) hx_verdict_add("C04", "connect_pairing", "%s: transaction %zu does not carry request %zu and response %zu (status %d)", TT.desc, i, i, i, tx->response_status_number);
+        }
         for (size_t i = 1; i < ntx && i < 3; i++) {
             htp_tx_t *tx = htp_list_get(c->conn->transactions, i); char want[8]; snprintf(want, sizeof want, "/t%zu", i);
             if (!tx || !tx->request_uri || bstr_cmp_c(tx->request_uri, want) != 0) hx_verdict_add("C16", "resume_uri", "%s: transaction %zu is not request %s (a byte was skipped or parsed twice)", TT.desc, i, want);
